@@ -297,6 +297,12 @@ class CacheProp(SeqProp):
             if r == "bad-op":
                 out.append(r)
             else:
+                if n % 3 == 1:
+                    # formatting the cache (logging, debugging output) is not a use of any entry
+                    try:
+                        repr(c); str(c); "{}".format(c)
+                    except Exception:  # noqa: keys / values with a failing repr are the keys' business
+                        pass
                 out.append(r + " " + self.digest(c))
                 mix = None
                 bad = [x for x in (fin_log or []) if x[1] is not False or x[2] is not False]
